@@ -32,9 +32,73 @@ def run(ctx, db, tier):
     shared.final_awaiter(ctx, db, 'C04.final-awaiter')
     dtor(ctx, db)
     bound_writers(ctx, db)
+    join_delivers(ctx, db)
+    start_is_eager(ctx, db)
+    from . import C11
+    C11.stop(ctx, db, 'C04.pool-drops-unstarted-outside-lock')
     if ctx.cfg == 'assert':
         witness.positive(ctx, 'C04.types', 'C04_pos.cpp', 'initial_suspend is suspend_always, final_suspend is noexcept, async<T> is move-only, join()/wait() hand out values that outlive the temporary future')
         witness.negative(ctx, 'C04.types-neg', 'C04_neg.cpp', 'copying an async object must not compile')
+
+
+OBSERVING = ('cocls::future::wait', 'cocls::future::join', 'cocls::future::force_wait', 'cocls::future::value', 'cocls::co_awaiter::wait', 'cocls::co_awaiter::force_wait')
+WAIT_ONLY = ('cocls::future::sync', 'cocls::future::force_sync', 'cocls::co_awaiter::sync', 'cocls::co_awaiter::force_sync')
+
+
+def join_delivers(ctx, db):
+    """join() is bound to its caller: the value AND the exception of the coroutine must reach it.  The blocking accessors of future come in two
+    kinds: wait()/join()/value() observe the result (rethrow), sync() only waits"""
+    rid = ctx.rule('C04.join-delivers', 'SIBLINGS', 'async<T>::join(), every instantiation (void and non-void branch of the if constexpr): on every path the future started from the coroutine is '
+                   'read through an accessor that observes the result (wait / join / value: the stored exception is rethrown to the joiner), not merely synchronised with (sync)', floor=2)
+    T = htracer(db)
+    seen = set()
+    for f in db.need('cocls::async::join'):
+        void = 'async<void' in (f.get('inst') or '')
+        if (f['key'], void) in seen:
+            continue
+        seen.add((f['key'], void))
+        trs = [t for t in T.traces(f) if live(t)]
+        ctx.paths(rid, len(trs))
+        bad = None
+        for tr in trs:
+            obs = [c for c in calls(tr) if norm(c.get('callee')) in OBSERVING]
+            if not obs:
+                w = [c for c in calls(tr) if norm(c.get('callee')) in WAIT_ONLY]
+                bad = bad or ('join() %s: an exception thrown by the coroutine never reaches the joiner' % ('only synchronises with the result (%s) and does not observe it' % norm(w[0].get('callee')).split('::')[-1] if w else 'does not wait for the result'), tr)
+        ctx.ob(rid, f, f['key'], bad is None and bool(trs), 'join() observes the result on every path (%s)' % ('void' if void else 'value') + ('' if not bad else ' -- ' + bad[0]), desc=bad[0] if bad else None,
+               trace=fmt_trace(bad[1]) if bad else None, inst=f.get('inst'))
+
+
+def start_is_eager(ctx, db):
+    """a future produced by start() may be waited for by blocking (join(), wait()): the blocked thread does not drain the ready queue, so the
+    coroutine must have been run up to its first suspension before start() hands the future out"""
+    rid = ctx.rule('C04.start-is-eager', 'PATHS', 'async<T>::start() (the closure run by the future\'s constructor): the handle obtained from start_promise is resumed before the closure returns, '
+                   'on every path - directly (coroutine_handle::resume) or inside a freshly installed queue (install_queue_and_resume) - and never merely queued (coro_queue::resume / push): '
+                   'a joiner that blocks right afterwards would wait for a coroutine that cannot run', floor=1)
+    lams = [lf for lf in lambdas_of(db, 'cocls::async::start') if any(c.k == 'call' and norm(c.get('callee')) == 'cocls::async::start_promise' for c in lf.events())]
+    if not lams:
+        raise Broken('anchor vanished: the closure of async::start() that calls start_promise')
+    T = htracer(db)
+    seen = set()
+    for lf in lams:
+        if lf['key'] in seen:
+            continue
+        seen.add(lf['key'])
+        trs = [t for t in T.traces(lf) if live(t)]
+        ctx.paths(rid, len(trs))
+        bad = None
+        for tr in trs:
+            sp = index_of(tr, callee_is('cocls::async::start_promise'))
+            now = [i for i, c in enumerate(tr) if c.k == 'call' and norm(c.get('callee')) in ('std::coroutine_handle::resume', 'std::coroutine_handle::operator()', 'cocls::coro_queue::install_queue_and_resume') and i > sp]
+            later = [c for c in tr[sp + 1:] if c.k == 'call' and norm(c.get('callee')) in ('cocls::coro_queue::resume', 'cocls::coro_queue::push', 'cocls::coro_queue::queue_impl::push', 'cocls::coro_queue::queue_impl::resume') and not c.get('expanded')]
+            if sp < 0:
+                continue
+            if later:
+                bad = bad or ('the started coroutine is handed to %s: inside a coroutine it is only queued and has not run when start() returns' % norm(later[0].get('callee')), tr)
+            elif len(now) != 1:
+                bad = bad or ('the started coroutine is resumed %d times before start() returns' % len(now), tr)
+        ctx.ob(rid, lf, lf['key'], bad is None and bool(trs), 'start() runs the coroutine to its first suspension before it returns' + ('' if not bad else ' -- ' + bad[0]), desc=bad[0] if bad else None,
+               trace=fmt_trace(bad[1]) if bad else None)
 
 
 def handle_linear(ctx, db):
